@@ -37,6 +37,15 @@ def cases(tier):
         cfg.update(mode="cycle", pre=pre, post=post, seed=common.SEED, do_exact=1, do_alg=1)
         cfg.pop("indep", None)
         out.append(cfg)
+    if tier != "thorough":
+        # four levels (33x32 -> 17x16 -> 9x8 -> 5x4): the level indices handed to the transfers and smoothers on the two intermediate
+        # levels; a slice of the smoothing counts (the thorough tier has the full product on 33x64)
+        for cyc, extr, (pre, post), strat, dirbc in itertools.product((0, 1, 2), (0, 1), ((1, 1), (0, 1), (2, 0)), (0, 1), (0, 1)):
+            cfg = c01.base(strat=strat, dirbc=dirbc, extr=extr, cycle=cyc, **problems[k % len(problems)])
+            k += 1
+            cfg.update(nr_exp=5, ntheta_exp=5, maxlev=-1, mode="cycle", pre=pre, post=post, seed=common.SEED, do_exact=1, do_alg=1)
+            cfg.pop("indep", None)
+            out.append(cfg)
     return out
 
 
